@@ -104,6 +104,26 @@ def build(rng, tier):
             if macro == "ascent_par": hist[0] += f" par {r5.choice([1, 2, 4])}"
             elif j % 3 == 1: hist = [o.replace("eng run ", "eng runp ") for o in hist]
             cases.append(engcheck.Case(pid, inst, hist, {"inp": inp, "kind": "agg-all-columns-bound-over-input" + ("-par" if macro == "ascent_par" else "")}))
+    # forced shape "nullary and wide aggregated relations": `out(x) <-- a(x), !flag()`, `cnt(n) <-- agg n = count() in flag()` (the aggregated index has the unit key), and
+    # count / sum / min over an arity-6 relation with two and with five columns bound
+    an = {"rels": [{"arity": 1}, {"arity": 0}, {"arity": 1}, {"arity": 1}, {"arity": 6}, {"arity": 3}, {"arity": 2}],
+          "rules": [{"heads": [(2, [("var", 0)])], "body": [("cl", 0, [("v", 0)], []), ("agg", [], "not", [], 1, [])]},
+                    {"heads": [(3, [("var", 21)])], "body": [("agg", [21], "count", [], 1, [])]},
+                    {"heads": [(5, [("var", 0), ("var", 21), ("var", 22)])], "body": [("cl", 0, [("v", 0)], []), ("agg", [21], "count", [], 4, [("k", ("var", 0)), ("k", ("var", 0)), "_", "_", "_", "_"]),
+                                                                                     ("agg", [22], "sum", [20], 4, [("k", ("var", 0)), "_", "_", "_", "_", ("b", 20)])]},
+                    {"heads": [(6, [("var", 0), ("var", 21)])], "body": [("cl", 0, [("v", 0)], []), ("agg", [21], "min", [20], 4, [("k", ("var", 0)), ("k", 1), ("k", 1), ("k", ("var", 0)), ("k", 2), ("b", 20)])]}]}
+    for pid, macro in (("anul", "ascent"), ("anulp", "ascent_par")):
+        progs[pid] = an
+        mods.append((pid, eng.rs_module(pid, an, macro=macro)))
+        for j in range(5 if tier == "quick" else 16):
+            r5 = rng.fork(f"anul{j}")
+            rows = list(dict.fromkeys([(x, x, r5.below(2), r5.below(3), r5.below(3), r5.range(1, 9)) for x in range(3) for _ in range(r5.below(3))] + [(x, 1, 1, x, 2, r5.range(1, 9)) for x in range(3) if r5.chance(1, 2)] + [(0, 1, 1, 0, 2, 5)]))
+            inp = {0: [(x,) for x in range(r5.range(1, 4))], 1: [()] if j % 2 else [], 4: rows}
+            inst = f"{pid}_{j}"
+            hist = engcheck.std_history(inst, pid, inp)
+            if macro == "ascent_par": hist[0] += f" par {r5.choice([1, 2, 4])}"
+            elif j % 3 == 1: hist = [o.replace("eng run ", "eng runp ") for o in hist]
+            cases.append(engcheck.Case(pid, inst, hist, {"inp": inp, "kind": "agg-nullary-and-wide" + ("-par" if macro == "ascent_par" else "")}))
     # aggregation over LATTICE relations through a non-unique index (strict subset of the key columns bound): one row per key, also after
     # rows were improved in place (serial mode; the theorems do not cover lattices + aggregation: tie only)
     lat_list = engcheck.make_programs(rng.fork("c04lat"), 8 if tier == "quick" else 40, genf=gen.gen_agg_lat_program,
